@@ -23,9 +23,12 @@ FILES = {
     "lib/sub/D.mo": "model D\n  Real w(start = 2);\nequation\n  der(w) = -w;\nend D;\n",
     "brk/Broken.mo": "model Broken\n  Real x\nequation\n  x = = 1;\nend Broken;\n",
     "brk/Ok.mo": "model Ok\n  Real q;\nequation\n  q = 1;\nend Ok;\n",
+    # names that start with a character some argument parsers give a meaning to (only matters for relative paths)
+    "@lib/E.mo": "model E\n  Real r(start = 3);\nequation\n  der(r) = -2 * r;\nend E;\n",
+    "@lib/A.mo": "model A\n  parameter Real k = 2;\n  Real x(start = 1);\nequation\n  der(x) = -k * x;\nend A;\n",
 }
 PATH_CHOICES = ["lib", "lib/A.mo", "lib/B.mo", "lib/sub", "brk", "brk/Broken.mo", "brk/Ok.mo", "missing.mo", "nodir"]
-MODEL_CHOICES = ["A", "B", "C", "D", "Bad", "Typo", "Nope", "Ok"]
+MODEL_CHOICES = ["A", "B", "C", "D", "Bad", "Typo", "Nope", "Ok", "E"]
 SRC_FAULTS = {"open": ["EIO", "EACCES", "ENOENT"], "read": ["EIO"]}
 OUT_FAULTS = {"open": ["ENOSPC", "EIO", "EACCES", "ENOENT"], "write": ["ENOSPC", "EIO"], "close": ["EIO"]}
 
@@ -108,7 +111,16 @@ class Engine:
             for _ in range(rng.choice([1, 2])):
                 opts.append(rng.choice(["a=1", "flag=true", "x=False", "bad", "a=b=c", "="]) if rng.random() < 0.5 else "ok=1")
         outdir = rng.choice(["out", "out", "out", "missing_out", "afile"]) if config == "control" else "out"
-        return {"paths": paths, "models": models, "target": target, "opts": opts, "outdir": outdir,
+        relative = False
+        if config == "control" and target != "casadi" and rng.random() < 0.3:
+            # the tool is run from inside the project folder with relative names, some of them unusual
+            relative = True
+            paths = [rng.choice(["lib", "@lib", "@lib", "@lib/E.mo", "@missing.mo", "lib/A.mo"]) for _ in range(n_paths)]
+            outdir = rng.choice(["out", "@out", "@out", "@nowhere"])
+            models = [rng.choice(["A", "E", "B", "Bad"]) for _ in range(rng.choice([0, 1, 1, 2]))]
+            if target and not models:
+                models = ["A"]
+        return {"relative": relative, "paths": paths, "models": models, "target": target, "opts": opts, "outdir": outdir,
                 "verbose": rng.choice([0, 0, 0, 1, 2]), "faults": None, "pair_seed": rng.randrange(1 << 30)}
 
     def shrink_candidates(self, plan):
@@ -142,6 +154,10 @@ class Engine:
             p = copy.deepcopy(plan)
             p["outdir"] = "out"
             yield p
+        if plan.get("relative"):
+            p = copy.deepcopy(plan)
+            p["relative"] = False
+            yield p
         if plan.get("verbose"):
             p = copy.deepcopy(plan)
             p["verbose"] = 0
@@ -156,12 +172,25 @@ class Engine:
             with fsim.REAL_OPEN(p, "w") as f:
                 f.write(txt)
         os.makedirs(os.path.join(sb, "out"))
+        os.makedirs(os.path.join(sb, "@out"))
         with fsim.REAL_OPEN(os.path.join(sb, "afile"), "w") as f:
             f.write("x")
         return sb
 
     @staticmethod
     def argv(plan, sb):
+        if plan.get("relative"):  # invoke() runs main() with the sandbox as working directory
+            a = list(plan["paths"])
+            for m in plan["models"]:
+                a += ["-m", m]
+            if plan["target"]:
+                a += ["-t", plan["target"]]
+            for o in plan["opts"]:
+                a += ["-O", o]
+            a += ["-o", plan["outdir"]]
+            if plan.get("verbose"):
+                a += ["-" + "v" * plan["verbose"]]
+            return a
         a = [os.path.join(sb, p) for p in plan["paths"]]
         for m in plan["models"]:
             a += ["-m", m]
@@ -377,7 +406,7 @@ class Engine:
 
     @staticmethod
     def show(plan):
-        return " ".join(plan["paths"] + sum([["-m", m] for m in plan["models"]], []) +
+        return ("(relative) " if plan.get("relative") else "") + " ".join(plan["paths"] + sum([["-m", m] for m in plan["models"]], []) +
                         (["-t", plan["target"]] if plan["target"] else []) + sum([["-O", o] for o in plan["opts"]], []) +
                         ["-o", plan["outdir"]] + (["-" + "v" * plan["verbose"]] if plan.get("verbose") else []))
 
